@@ -167,16 +167,17 @@ pub(super) fn derive_schema(input: TokenStream) -> syn::Result<TokenStream> {
                         continue
                     }
 
-                    let mut ident = f.ident.as_ref().unwrap(/* Named */).unraw(/* `r#type` is `type` for serde */);
+                    /* a string, not an `Ident`: a name like `user-name`, `1st` is not an identifier */
+                    let ident = f.ident.as_ref().unwrap(/* Named */).unraw(/* `r#type` is `type` for serde */);
+                    let mut property_name = LitStr::new(&ident.to_string(), ident.span());
                     if let Some((span, case)) = container_attrs.serde.rename_all.value()? {
-                        ident = Ident::new(&case.apply_to_field(&ident.to_string()), span);
+                        property_name = LitStr::new(&case.apply_to_field(&property_name.value()), span);
                     }
                     if let Some((span, rename)) = field_attrs.serde.rename.value()? {
-                        ident = Ident::new(&rename, span);
+                        property_name = LitStr::new(&rename, span);
                     }
 
                     if let Some(schema_with) = &field_attrs.openapi.schema_with {
-                        let property_name = LitStr::new(&ident.to_string(), ident.span());
                         let schema_with = syn::parse_str::<Path>(schema_with)?;
                         properties.push(quote! {
                             schema = schema.property(#property_name, #schema_with());
@@ -226,8 +227,6 @@ pub(super) fn derive_schema(input: TokenStream) -> syn::Result<TokenStream> {
                             }
                         })
                     } else {
-                        let property_name = LitStr::new(&ident.to_string(), ident.span());
-
                         properties.push(if is_optional_field {quote! {
                             schema = schema.optional(#property_name, #property_schema);
                         }} else {quote! {
@@ -348,15 +347,15 @@ pub(super) fn derive_schema(input: TokenStream) -> syn::Result<TokenStream> {
                 variant_names.push({
                     let variant_attrs = VariantAttributes::new(&v.attrs)?;
                     
-                    let mut ident = v.ident.clone();
+                    let mut name = LitStr::new(&v.ident.unraw().to_string(), v.ident.span());
                     if let Some((span, case)) = container_attrs.serde.rename_all.value()? {
-                        ident = Ident::new(&case.apply_to_variant(&ident.to_string()), span);
+                        name = LitStr::new(&case.apply_to_variant(&name.value()), span);
                     }
-                    if let Some((span, name)) = variant_attrs.serde.rename.value()? {
-                        ident = Ident::new(&*name, span);
+                    if let Some((span, rename)) = variant_attrs.serde.rename.value()? {
+                        name = LitStr::new(&*rename, span);
                     };
                     
-                    LitStr::new(&ident.to_string(), ident.span())
+                    name
                 });
             }
             
@@ -380,14 +379,14 @@ pub(super) fn derive_schema(input: TokenStream) -> syn::Result<TokenStream> {
                 }
 
                 let tag = {
-                    let mut ident = v.ident;
+                    let mut name = LitStr::new(&v.ident.unraw().to_string(), v.ident.span());
                     if let Some((span, case)) = container_attrs.serde.rename_all.value()? {
-                        ident = Ident::new(&case.apply_to_variant(&ident.to_string()), span);
+                        name = LitStr::new(&case.apply_to_variant(&name.value()), span);
                     }
-                    if let Some((span, name)) = variant_attrs.serde.rename.value()? {
-                        ident = Ident::new(&*name, span);
+                    if let Some((span, rename)) = variant_attrs.serde.rename.value()? {
+                        name = LitStr::new(&*rename, span);
                     }
-                    LitStr::new(&ident.to_string(), ident.span())
+                    name
                 };
 
                 let is_unit = matches!(v.fields, Fields::Unit);
